@@ -57,6 +57,11 @@ func main() {
 	methods := map[string]bool{"Write": true, "DropAll": true, "Set": true, "Del": true, "NewBatch": true, "Commit": true, "RevertDiff": true}
 	var sites []site
 	var deletes [][3]string // function, argument expression, how that variable is obtained in the function
+	type fdecl struct {
+		rel, fn string
+		d       *ast.FuncDecl
+	}
+	var all []fdecl
 	fset := token.NewFileSet()
 	for _, root := range roots {
 		err := filepath.Walk(filepath.Join(*repo, root), func(path string, info os.FileInfo, err error) error {
@@ -87,6 +92,7 @@ func main() {
 					continue
 				}
 				fn := funcName(fd)
+				all = append(all, fdecl{rel, fn, fd})
 				assigned := map[string]string{}
 				ast.Inspect(fd.Body, func(n ast.Node) bool {
 					if as, ok := n.(*ast.AssignStmt); ok && len(as.Lhs) == 1 && len(as.Rhs) == 1 {
@@ -123,6 +129,107 @@ func main() {
 			os.Exit(2)
 		}
 	}
+	// ---- writer parameters, one level of indirection -------------------------------------------------------------
+	// A parameter p of a function F is a *writer parameter* when F's body calls p.Set / p.Del / p.Write / p.DropAll, or hands p
+	// to Commit / RevertDiff (diffdb: they write into their argument), or hands p to a writer parameter of another function
+	// (two propagation rounds).  Every call site of such an F is listed with the text of the argument bound to p; so are the
+	// first arguments of Commit / RevertDiff calls.  A batch is fine; the database handle there is a direct durable write that
+	// no `x.database.Set(` pattern shows.
+	writerIdx := map[string]map[int]bool{} // function (bare name) -> indexes of writer parameters
+	paramIndex := func(d *ast.FuncDecl) map[string]int {
+		m := map[string]int{}
+		i := 0
+		for _, f := range d.Type.Params.List {
+			if len(f.Names) == 0 {
+				i++
+				continue
+			}
+			for _, nm := range f.Names {
+				m[nm.Name] = i
+				i++
+			}
+		}
+		return m
+	}
+	mark := func(name string, idx int) bool {
+		if writerIdx[name] == nil {
+			writerIdx[name] = map[int]bool{}
+		}
+		if writerIdx[name][idx] {
+			return false
+		}
+		writerIdx[name][idx] = true
+		return true
+	}
+	for round := 0; round < 3; round++ {
+		for _, f := range all {
+			pi := paramIndex(f.d)
+			ast.Inspect(f.d.Body, func(n ast.Node) bool {
+				call, ok := n.(*ast.CallExpr)
+				if !ok {
+					return true
+				}
+				callee := ""
+				switch fx := call.Fun.(type) {
+				case *ast.SelectorExpr:
+					callee = fx.Sel.Name
+					if id, ok := fx.X.(*ast.Ident); ok {
+						if idx, isParam := pi[id.Name]; isParam {
+							switch callee {
+							case "Set", "Del", "Write", "DropAll":
+								mark(f.d.Name.Name, idx)
+							}
+						}
+					}
+				case *ast.Ident:
+					callee = fx.Name
+				}
+				for ai, arg := range call.Args {
+					id, ok := arg.(*ast.Ident)
+					if !ok {
+						continue
+					}
+					idx, isParam := pi[id.Name]
+					if !isParam {
+						continue
+					}
+					if (callee == "Commit" || callee == "RevertDiff") && ai == 0 {
+						mark(f.d.Name.Name, idx)
+					}
+					if writerIdx[callee][ai] {
+						mark(f.d.Name.Name, idx)
+					}
+				}
+				return true
+			})
+		}
+	}
+	var wargs [][3]string // caller, callee, argument text
+	for _, f := range all {
+		ast.Inspect(f.d.Body, func(n ast.Node) bool {
+			call, ok := n.(*ast.CallExpr)
+			if !ok {
+				return true
+			}
+			callee := ""
+			switch fx := call.Fun.(type) {
+			case *ast.SelectorExpr:
+				callee = fx.Sel.Name
+			case *ast.Ident:
+				callee = fx.Name
+			}
+			for ai, arg := range call.Args {
+				if writerIdx[callee][ai] || ((callee == "Commit" || callee == "RevertDiff") && ai == 0) {
+					wargs = append(wargs, [3]string{f.rel + ":" + f.fn, callee, exprText(fset, arg)})
+				}
+			}
+			return true
+		})
+	}
+	sort.Slice(wargs, func(i, j int) bool {
+		return wargs[i][0]+"|"+wargs[i][1]+"|"+wargs[i][2] < wargs[j][0]+"|"+wargs[j][1]+"|"+wargs[j][2]
+	})
+
 	sort.Slice(sites, func(i, j int) bool {
 		a, b := sites[i], sites[j]
 		return a.pkg+"|"+a.fn+"|"+a.recv+"|"+a.method < b.pkg+"|"+b.fn+"|"+b.recv+"|"+b.method
@@ -158,6 +265,15 @@ func main() {
 	for i, d := range deletes {
 		sep := ";"
 		if i == len(deletes)-1 {
+			sep = ""
+		}
+		fmt.Fprintf(&sb, "  (%s, %s, %s)%s\n", q(d[0]), q(d[1]), q(d[2]), sep)
+	}
+	sb.WriteString("].\n\n(* arguments bound to writer parameters (one level): (caller, callee, argument); see translate/mutators *)\n")
+	sb.WriteString("Definition found_writer_args : list (string * string * string) := [\n")
+	for i, d := range wargs {
+		sep := ";"
+		if i == len(wargs)-1 {
 			sep = ""
 		}
 		fmt.Fprintf(&sb, "  (%s, %s, %s)%s\n", q(d[0]), q(d[1]), q(d[2]), sep)
